@@ -3,6 +3,7 @@
 #include "mc/mc.hpp"
 #include <climits>
 #include "mc/exit_trap.hpp"
+#include "mc/purity.hpp"
 #include <iostream>
 #include <vector>
 #include <string>
@@ -382,6 +383,36 @@ static void summary_statistics(unsigned long long& unit)
 	}
 }
 
+// ---- call histories: the helpers are functions of their arguments only ----------------------------------------------------------------
+static void histories(unsigned long long& unit)
+{
+	auto dv = [](const std::vector<double>& v) { return mc::hexv(v); };
+	auto iv = [](const std::vector<int>& v) { std::string o; for(int x : v) o += std::to_string(x) + ","; return o; };
+	std::vector<mc::PureLetter> L;
+	L.push_back({"Workload_Distribution(7,61)", [=]() { return iv(Workload_Distribution(7, 61)); }});
+	L.push_back({"Workload_Distribution(3,2)", [=]() { return iv(Workload_Distribution(3, 2)); }});
+	L.push_back({"Range(5)", [=]() { return iv(Range(5)); }});
+	L.push_back({"Range(-3)", [=]() { return iv(Range(-3)); }});
+	L.push_back({"Range(2,11,4)", [=]() { return iv(Range(2, 11, 4)); }});
+	L.push_back({"Range(9,-2,3)", [=]() { return iv(Range(9, -2, 3)); }});
+	L.push_back({"Linear_Space(0,1,7)", [=]() { return dv(Linear_Space(0, 1, 7)); }});
+	L.push_back({"Linear_Space(5,-2,4)", [=]() { return dv(Linear_Space(5, -2, 4)); }});
+	L.push_back({"Log_Space(1e-3,1e4,6)", [=]() { return dv(Log_Space(1e-3, 1e4, 6)); }});
+	L.push_back({"Log_Space(1e300,1e-300,3)", [=]() { return dv(Log_Space(1e300, 1e-300, 3)); }});
+	L.push_back({"Locate_Closest_Location({0,1,1,3},2)", [=]() { return std::to_string(Locate_Closest_Location({0, 1, 1, 3}, 2.0)); }});
+	L.push_back({"Locate_Closest_Location({-5,2,8},-9)", [=]() { return std::to_string(Locate_Closest_Location({-5, 2, 8}, -9.0)); }});
+	L.push_back({"Sub_List({1,2,3,4},1,2)", [=]() { return dv(Sub_List(std::vector<double>{1, 2, 3, 4}, 1, 2)); }});
+	L.push_back({"Flatten_List", [=]() { return dv(Flatten_List(std::vector<std::vector<double>>{{1}, {}, {2, 3}})); }});
+	L.push_back({"Find_Indices({a,b,a},a)", [=]() { return iv(Find_Indices(std::vector<std::string>{"a", "b", "a"}, std::string("a"))); }});
+	L.push_back({"Arithmetic_Mean", [=]() { return mc::hexd(Arithmetic_Mean({1, 2, 4, 8, -3})); }});
+	L.push_back({"Median(odd)", [=]() { std::vector<double> d{5, 1, 4, 2, 9}; return mc::hexd(Median(d)); }});
+	L.push_back({"Median(even)", [=]() { std::vector<double> d{5, 1, 4, 2}; return mc::hexd(Median(d)); }});
+	L.push_back({"Variance", [=]() { return mc::hexd(Variance({1, 2, 4, 8, -3})); }});
+	L.push_back({"Standard_Deviation(1e9+...)", [=]() { return mc::hexd(Standard_Deviation({1e9 + 1, 1e9 + 2, 1e9 + 4})); }});
+	L.push_back({"Weighted_Average", [=]() { std::vector<DataPoint> d{DataPoint(1, 0.5), DataPoint(2, 2), DataPoint(4, 1)}; return dv(Weighted_Average(d)); }});
+	g_cases += mc::purity("histories", L, mc::thorough() ? 3 : 2, unit);
+}
+
 int main(int argc, char** argv)
 {
 	mc::init(argc, argv);
@@ -400,6 +431,7 @@ int main(int argc, char** argv)
 		spaces(unit);
 		closest(unit);
 		summary_statistics(unit);
+		histories(unit);
 	}
 	mc::count("evaluations", g_cases);
 	mc::count("distinct_nontrivial", g_cases);
